@@ -958,4 +958,7 @@ LEAN_TARGETS = LEAN_TARGETS + ["OdxVerif.Props.C04Nested2"]
 THEOREMS = THEOREMS + [P + t for t in [
     "C04_nested", "C04_nested_never_foreign2", "C04_nested_accepts_iff2", "encodeMessage_nested2_cases", "DescribedP2.okW",
     "Obj.rejectsW", "PDesc.ofObjValue_okW", "PDesc.ofObjDefault_okW", "PDesc.ofValue_okW", "DDesc.struct_okW",
-    "DDesc.staticField_okW", "DDesc.dynLenField_okW", "DDesc.eopField_okW", "DDesc.mux_okW"]]
+    "DDesc.staticField_okW", "DDesc.dynLenField_okW", "DDesc.eopField_okW", "DDesc.mux_okW",
+    # STRUCTURE with BYTE-SIZE, LEADING-LENGTH leaf over A_BYTEFIELD, round-6 kinds outside the value-free class
+    "DDesc.structBS_okW", "DDesc.structO_okW", "PDesc.ofLeadBytes_okW", "encodeParam_matchingReq_rej",
+    "C04_endmarker_collision_counterexample"]]
